@@ -5,6 +5,8 @@ import (
 	"sort"
 	"strings"
 
+	kvql "github.com/c4pt0r/kvql"
+
 	"kvqlverif/drive"
 	"kvqlverif/gen"
 	"kvqlverif/refstore"
@@ -90,7 +92,7 @@ func (c18) NumCases(tier string) int {
 func (c18) Exhaustive(tier string) bool { return true }
 
 func (c18) Rule() string {
-	return fmt.Sprintf("all canonical key-pinning shapes (key on the left): %d pinning atoms (=, IN, ^=, >, >=, <, <=, BETWEEN over the pool %v) alone with 0..2 opaque conjuncts in every placement, all ordered pairs of pinning atoms (with and without an opaque conjunct), triples over %d canonical atoms (all in thorough, 20000 sampled in quick), plus `false`; each drained in row and batch mode over a %d-key store dense around every literal. Non-trivial: the statement is satisfiable and storage reads were observed; distinct by statement text.", len(c18All), c18Pool, len(c18Canon), len(c02Universe))
+	return fmt.Sprintf("all canonical key-pinning shapes (key on the left): %d pinning atoms (=, IN, ^=, >, >=, <, <=, BETWEEN over the pool %v) alone with 0..2 opaque conjuncts in every placement, all ordered pairs of pinning atoms (with and without an opaque conjunct), triples over %d canonical atoms (all in thorough, 20000 sampled in quick), plus `false`; each inside a randomly chosen statement form (select *, short form, field list, aggregate, delete; with and without LIMIT - also with an offset beyond the matches - and ORDER BY) and drained in row and batch mode over a %d-key store dense around every literal. Non-trivial: the statement is satisfiable and storage reads were observed; distinct by statement text.", len(c18All), c18Pool, len(c18Canon), len(c02Universe))
 }
 
 func (c18) Assumptions() []string {
@@ -99,6 +101,7 @@ func (c18) Assumptions() []string {
 
 func (c18) Gates(tier string, m map[string]int64) []rt.Gate {
 	return []rt.Gate{
+		rt.GateMin("pinned clauses under a LIMIT whose offset exceeds the matches", m, "offset_beyond_the_matches", 200),
 		rt.GateMin("satisfiable shapes with reads observed", m, "shapes_with_reads", 1000),
 		rt.Gate{Name: "satisfiable shapes WITHOUT any read (nothing monitored)", Observed: m["satisfiable_without_reads"], Need: 0, OK: m["satisfiable_without_reads"] == 0},
 		rt.GateMin("unsatisfiable-on-its-face shapes checked", m, "unsat_shapes", 100),
@@ -260,7 +263,20 @@ func minHi(a, b *string) *string {
 func (k c18) judge(c *rt.Ctx, tree *gen.Node, pins []c18Atom, isFalse bool) {
 	rec := c.Rec
 	where := gen.Print(tree)
-	query := "select * where " + where
+	// the clause inside different statements: what is read depends on the clause only
+	head := []string{"select * where ", "select * where ", "select * where ", "where ", "select key, upper(value) as u where ", "select count(1), max(value) where ", "delete where "}[c.R.Intn(7)]
+	tail := ""
+	if c.R.Chance(1, 3) {
+		tail = []string{" limit 2", " limit 1, 2", " limit 200, 3", " order by value desc", " order by value limit 300, 2"}[c.R.Intn(5)]
+		if strings.HasPrefix(head, "delete") && strings.Contains(tail, "order") {
+			tail = " limit 200, 3"
+		}
+		if strings.HasPrefix(head, "select count") && strings.Contains(tail, "order") {
+			tail = " limit 5, 1"
+		}
+	}
+	query := head + where + tail
+	rec.Inc("statement_form:" + strings.TrimSpace(strings.TrimSuffix(head, "where ")+"…"+strings.Join(strings.Fields(tail)[:min(1, len(strings.Fields(tail)))], "")))
 	unsat := isFalse || c18UnsatOnFace(pins)
 	pointRead := false
 	for _, p := range pins {
@@ -333,15 +349,21 @@ func (k c18) judge(c *rt.Ctx, tree *gen.Node, pins []c18Atom, isFalse bool) {
 			// satisfiable clause without a single read: either legitimately
 			// empty by deeper reasoning (e.g. key = 'a' & key ^= 'b'), or
 			// nothing was monitored
-			if len(o.Rows) == 0 && c18DeepUnsat(pins) {
+			if (len(o.Rows) == 0 || strings.HasPrefix(head, "delete")) && c18DeepUnsat(pins) {
 				rec.Inc("deep_unsat_no_reads")
+			} else if _, direct := o.Plan.(*kvql.RemovePlan); direct {
+				rec.Inc("delete_by_direct_removal_without_reads")
 			} else {
 				rec.Inc("satisfiable_without_reads")
+				c.Rec.Sample(rt.D{"satisfiable_without_reads": query, "mode": m.String(), "explain": o.Explain})
 			}
 			continue
 		}
 		rec.Inc("shapes_with_reads")
 		rec.DistinctS(where + md)
+		if strings.Contains(tail, "limit 200") || strings.Contains(tail, "limit 300") {
+			rec.Inc("offset_beyond_the_matches")
+		}
 		if pointRead {
 			rec.Inc("point_read_shapes")
 			if nextHits > 0 {
